@@ -120,6 +120,8 @@ pub struct HandleInfo {
     pub ident: String,
     /// has a generic `new<T: GuestX>(val: T)` constructor: an exported resource
     pub exported: bool,
+    /// the `GuestX` bound of that constructor
+    pub bound_trait: Option<String>,
 }
 
 /// `pub struct ThingBorrow<'a> { rep: *mut u8, _marker: .. }`
@@ -127,6 +129,8 @@ pub struct HandleInfo {
 pub struct BorrowInfo {
     pub path: Vec<String>,
     pub ident: String,
+    /// the owned handle type named in `_marker: PhantomData<&'a Thing>`
+    pub owner: Option<String>,
 }
 
 #[derive(Clone, Debug)]
@@ -309,11 +313,25 @@ fn walk(items: &[Item], path: &mut Vec<String>, an: &mut Analysis) {
                 let syn::Fields::Named(named) = &s.fields else { continue };
                 let fields: Vec<String> = named.named.iter().map(|f| f.ident.as_ref().unwrap().to_string()).collect();
                 if fields == ["handle"] {
-                    an.handles.push(HandleInfo { path: path.clone(), ident, exported: false });
+                    an.handles.push(HandleInfo { path: path.clone(), ident, exported: false, bound_trait: None });
                     continue;
                 }
                 if fields.iter().any(|f| f == "rep") && fields.iter().any(|f| f == "_marker") {
-                    an.borrows.push(BorrowInfo { path: path.clone(), ident });
+                    let owner = named.named.iter().find(|f| f.ident.as_ref().map(|i| i == "_marker").unwrap_or(false)).and_then(|f| {
+                        // PhantomData<&'a Thing>
+                        let mut found = None;
+                        struct V<'x>(&'x mut Option<String>);
+                        impl<'ast, 'x> Visit<'ast> for V<'x> {
+                            fn visit_type_reference(&mut self, r: &'ast syn::TypeReference) {
+                                if let Type::Path(p) = &*r.elem {
+                                    *self.0 = p.path.segments.last().map(|s| s.ident.to_string());
+                                }
+                            }
+                        }
+                        V(&mut found).visit_type(&f.ty);
+                        found
+                    });
+                    an.borrows.push(BorrowInfo { path: path.clone(), ident, owner });
                     continue;
                 }
                 if ident.starts_with('_') || !is_pub(&s.vis) {
@@ -419,8 +437,16 @@ fn walk(items: &[Item], path: &mut Vec<String>, an: &mut Analysis) {
                     if let ImplItem::Fn(f) = it {
                         // exported-resource handle types have `new<T: GuestX>(val: T)`
                         if i.trait_.is_none() && f.sig.ident == "new" && !f.sig.generics.params.is_empty() {
+                            let bound = f.sig.generics.params.iter().find_map(|p| match p {
+                                syn::GenericParam::Type(t) => t.bounds.iter().find_map(|b| match b {
+                                    syn::TypeParamBound::Trait(tb) => tb.path.segments.last().map(|s| s.ident.to_string()),
+                                    _ => None,
+                                }),
+                                _ => None,
+                            });
                             if let Some(h) = an.handles.iter_mut().find(|h| h.ident == self_ty && h.path == *path) {
                                 h.exported = true;
+                                h.bound_trait = bound;
                             }
                         }
                         let c = foreign_in_block(&f.block);
